@@ -59,7 +59,39 @@ func expect(sig string, got *boc.Cell, want *cell.Cell, wit map[string]any) bool
 		R.Violation("bits-mismatch@"+sig, wit)
 		return false
 	}
+	// where the tree holds exotic cells the representation hash is compared as well (the type of a
+	// cell is part of d1). Trees with a pruned branch are compared structurally only: tongo's
+	// in-memory builder keeps no level mask for the cells above it (C02's business).
+	if ex, pruned := exoticIn(want); ex && !pruned {
+		var h []byte
+		var err error
+		if p := mon.Guard(func() { h, err = got.Hash() }); p != nil || err != nil {
+			wit["err"] = fmt.Sprint(err, p)
+			R.Violation("hash-failed@"+sig, wit)
+			return false
+		}
+		wh := want.Hash()
+		R.Count("exotic_trees_hash_compared", 1)
+		if !bytes.Equal(h, wh[:]) {
+			wit["got_hash"], wit["want_hash"] = mon.Hex(h), mon.Hex(wh[:])
+			R.Violation("hash-mismatch@"+sig, wit)
+			return false
+		}
+	}
 	return true
+}
+
+// exoticIn reports whether the tree holds an exotic cell / a pruned branch.
+func exoticIn(c *cell.Cell) (exotic, pruned bool) {
+	cell.Walk(c, func(x *cell.Cell) {
+		if x.Exotic {
+			exotic = true
+			if x.Type() == cell.PrunedBranch {
+				pruned = true
+			}
+		}
+	})
+	return
 }
 
 func cat(parts ...[]bool) []bool {
@@ -573,7 +605,9 @@ func (i msgInfo) tongo() tlb.CommonMsgInfo {
 }
 
 // int_msg_info$0 ihr_disabled:Bool bounce:Bool bounced:Bool src:MsgAddressInt dest:MsgAddressInt value:CurrencyCollection
-//   ihr_fee:Grams fwd_fee:Grams created_lt:uint64 created_at:uint32
+//
+//	ihr_fee:Grams fwd_fee:Grams created_lt:uint64 created_at:uint32
+//
 // ext_in_msg_info$10 src:MsgAddressExt dest:MsgAddressInt import_fee:Grams
 // ext_out_msg_info$11 src:MsgAddressInt dest:MsgAddressExt created_lt:uint64 created_at:uint32
 func (i msgInfo) ref() []bool {
@@ -604,6 +638,35 @@ func genCell(rng *mon.Rng, depth int) *cell.Cell {
 	return c
 }
 
+// genRefCell: a cell for a position where the schema has ^Cell: mostly an
+// ordinary tree, now and then an exotic cell - a library cell (contract code
+// on the mainnet is often one), a Merkle proof / update, a pruned branch.
+// The reference has to point to that very cell, type included.
+func genRefCell(rng *mon.Rng, depth int) *cell.Cell {
+	if !rng.Chance(1, 3) {
+		return genCell(rng, depth)
+	}
+	var c *cell.Cell
+	switch rng.Intn(5) {
+	case 0, 1:
+		c = genLibrary(rng)
+	case 2:
+		c = cell.NewMerkleProof(genCell(rng, 2))
+	case 3:
+		c = cell.NewMerkleUpdate(genCell(rng, 2), genCell(rng, 2))
+	default:
+		c = cell.NewPruned(genCell(rng, 2), 1)
+	}
+	R.Seen("exotic_ref_cells", fmt.Sprintf("type%d", c.Type()))
+	return c
+}
+
+func genLibrary(rng *mon.Rng) *cell.Cell {
+	var h cell.Hash
+	copy(h[:], rng.Bytes(32))
+	return cell.NewLibrary(h)
+}
+
 func genStateInit(rng *mon.Rng) stateInit {
 	var s stateInit
 	if rng.Chance(1, 3) {
@@ -614,15 +677,28 @@ func genStateInit(rng *mon.Rng) stateInit {
 		s.special = &[2]bool{rng.Bool(), rng.Bool()}
 	}
 	if rng.Chance(2, 3) {
-		s.code = genCell(rng, 1)
+		s.code = genRefCell(rng, 1)
 	}
 	if rng.Chance(2, 3) {
-		s.data = genCell(rng, 1)
+		s.data = genRefCell(rng, 1)
 	}
 	return s
 }
 
+// tongoCell builds the tongo value of a reference cell with tongo's in-memory
+// API; exotic cells with NewCellExotic (their children are ordinary here).
 func tongoCell(c *cell.Cell) boc.Cell {
+	if c.Exotic {
+		t := boc.NewCellExotic(boc.CellType(c.Type()))
+		for _, b := range c.Bits {
+			_ = t.WriteBit(b)
+		}
+		for _, r := range c.Refs {
+			ch := tongoCell(r)
+			_ = t.AddRef(&ch)
+		}
+		return *t
+	}
 	t, err := bridge.ToTongoBuilt(c)
 	if err != nil {
 		R.HarnessError("tongoCell: %v", err)
@@ -674,6 +750,114 @@ func (s stateInit) ref() ([]bool, []*cell.Cell) {
 	return b, refs
 }
 
+// account_none$0 = Account;
+// account$1 addr:MsgAddressInt storage_stat:StorageInfo storage:AccountStorage = Account;
+// storage_info$_ used:StorageUsed storage_extra:StorageExtraInfo last_paid:uint32 due_payment:(Maybe Grams) = StorageInfo;
+// storage_used$_ cells:(VarUInteger 7) bits:(VarUInteger 7) = StorageUsed;
+// storage_extra_none$000 = StorageExtraInfo; storage_extra_info$001 dict_hash:uint256 = StorageExtraInfo;
+// account_storage$_ last_trans_lt:uint64 balance:CurrencyCollection state:AccountState = AccountStorage;
+// account_uninit$00 = AccountState; account_active$1 _:StateInit = AccountState; account_frozen$01 state_hash:bits256 = AccountState;
+// account_descr$_ account:^Account last_trans_hash:bits256 last_trans_lt:uint64 = ShardAccount;
+type account struct {
+	kind        int // 0 none 1 uninit 2 active 3 frozen
+	addr        addr
+	cells, bits *big.Int
+	extra       []byte // nil or 32 bytes
+	lastPaid    uint32
+	due         *uint64
+	lastLt      uint64
+	balance     uint64
+	si          stateInit
+	frozen      []byte
+}
+
+func genAccount(rng *mon.Rng, si stateInit) account {
+	a := account{kind: rng.Intn(4), addr: genAddr(rng, 2, 2, 3), lastPaid: uint32(rng.Uint64()), lastLt: rng.Uint64(), balance: genGrams(rng), si: si}
+	used := func() *big.Int {
+		n := rng.Intn(7) // VarUInteger 7: 0..6 bytes
+		if n == 0 {
+			return new(big.Int)
+		}
+		b := rng.Bytes(n)
+		b[0] |= mon.Pick(rng, []byte{0x80, 0x01})
+		return new(big.Int).SetBytes(b)
+	}
+	a.cells, a.bits = used(), used()
+	if rng.Bool() {
+		a.extra = rng.Bytes(32)
+	}
+	if rng.Bool() {
+		d := genGrams(rng)
+		a.due = &d
+	}
+	a.frozen = rng.Bytes(32)
+	return a
+}
+
+func (a account) tongo() tlb.Account {
+	if a.kind == 0 {
+		return tlb.Account{SumType: "AccountNone"}
+	}
+	var t tlb.Account
+	t.SumType = "Account"
+	t.Account.Addr = a.addr.tongo()
+	t.Account.StorageStat.Used = tlb.StorageUsed{Cells: tlb.VarUInteger7(*a.cells), Bits: tlb.VarUInteger7(*a.bits)}
+	if a.extra != nil {
+		t.Account.StorageStat.StorageExtra.SumType = "StorageExtraInfo"
+		copy(t.Account.StorageStat.StorageExtra.StorageExtraInfo.DictHash[:], a.extra)
+	} else {
+		t.Account.StorageStat.StorageExtra.SumType = "StorageExtraNone"
+	}
+	t.Account.StorageStat.LastPaid = a.lastPaid
+	if a.due != nil {
+		t.Account.StorageStat.DuePayment = tlb.Maybe[tlb.Grams]{Exists: true, Value: tlb.Grams(*a.due)}
+	}
+	t.Account.Storage.LastTransLt = a.lastLt
+	t.Account.Storage.Balance = tlb.CurrencyCollection{Grams: tlb.Grams(a.balance)}
+	switch a.kind {
+	case 1:
+		t.Account.Storage.State.SumType = "AccountUninit"
+	case 2:
+		t.Account.Storage.State.SumType = "AccountActive"
+		t.Account.Storage.State.AccountActive.StateInit = a.si.tongo()
+	case 3:
+		t.Account.Storage.State.SumType = "AccountFrozen"
+		copy(t.Account.Storage.State.AccountFrozen.StateHash[:], a.frozen)
+	}
+	return t
+}
+
+func (a account) ref() ([]bool, []*cell.Cell) {
+	if a.kind == 0 {
+		return []bool{false}, nil
+	}
+	b := cat([]bool{true}, a.addr.ref(), refVarUint(a.cells, 7), refVarUint(a.bits, 7))
+	if a.extra != nil {
+		b = cat(b, []bool{false, false, true}, rb.BytesBits(a.extra))
+	} else {
+		b = cat(b, []bool{false, false, false})
+	}
+	b = cat(b, rb.UintBits(uint64(a.lastPaid), 32))
+	if a.due != nil {
+		b = cat(b, []bool{true}, refGrams(*a.due))
+	} else {
+		b = append(b, false)
+	}
+	b = cat(b, rb.UintBits(a.lastLt, 64), refCurrency(a.balance))
+	var refs []*cell.Cell
+	switch a.kind {
+	case 1:
+		b = cat(b, []bool{false, false})
+	case 2:
+		sb, sr := a.si.ref()
+		b = cat(b, []bool{true}, sb)
+		refs = sr
+	case 3:
+		b = cat(b, []bool{false, true}, rb.BytesBits(a.frozen))
+	}
+	return b, refs
+}
+
 func sectionStructures() {
 	n := R.N(2000, 600000)
 	for k := 0; k < n; k++ {
@@ -699,11 +883,34 @@ func sectionStructures() {
 		sb, srefs := si.ref()
 		R.Eval(fmt.Sprintf("stateinit/%d", k))
 		expect("StateInit", marshal("StateInit", si.tongo(), wit), cell.New(sb, false, srefs...), wit)
+		// simple_lib$_ public:Bool root:^Cell = SimpleLib;
+		pub, root := rng.Bool(), genRefCell(rng, 1)
+		R.Eval(fmt.Sprintf("simplelib/%d", k))
+		expect("SimpleLib", marshal("SimpleLib", tlb.SimpleLib{Public: pub, Root: tongoCell(root)}, wit), cell.New([]bool{pub}, false, root), wit)
+		// Account / ShardAccount
+		acc := genAccount(rng, si)
+		if ab, ar := acc.ref(); len(ab) <= 1023 {
+			R.Eval(fmt.Sprintf("account/%d/%d", acc.kind, k))
+			R.Seen("account_kinds", fmt.Sprint(acc.kind))
+			wa := map[string]any{"case": k, "account_kind": acc.kind}
+			expect("Account", marshal("Account", acc.tongo(), wa), cell.New(ab, false, ar...), wa)
+			var lh tlb.Bits256
+			copy(lh[:], rng.Bytes(32))
+			llt := rng.Uint64()
+			sa := tlb.ShardAccount{Account: acc.tongo(), LastTransHash: lh, LastTransLt: llt}
+			expect("ShardAccount", marshal("ShardAccount", sa, wa),
+				cell.New(cat(rb.BytesBits(lh[:]), rb.UintBits(llt, 64)), false, cell.New(ab, false, ar...)), wa)
+		}
 		// Message: info + init (none / inline / ref) + body (inline / ref)
 		// message$_ {X:Type} info:CommonMsgInfo init:(Maybe (Either StateInit ^StateInit)) body:(Either X ^X) = Message X
 		initMode := rng.Intn(3)
 		bodyRef := rng.Bool()
 		body := genCell(rng, 1)
+		if bodyRef && rng.Chance(1, 4) {
+			// body:(Either X ^X): the reference may point to a library cell that stands for X
+			body = genLibrary(rng)
+			R.Seen("exotic_ref_cells", "message body: library")
+		}
 		if !bodyRef {
 			body = cell.New(rng.Bits(rng.Intn(60)), false)
 			if rng.Bool() {
@@ -766,7 +973,9 @@ func sectionStructures() {
 			er = append(er, body)
 			var m tlb.Message
 			var err error
-			if p := mon.Guard(func() { m, err = ton.CreateExternalMessage(id, &bc, initP, tlb.VarUInteger16(*new(big.Int).SetUint64(fee))) }); p != nil || err != nil {
+			if p := mon.Guard(func() {
+				m, err = ton.CreateExternalMessage(id, &bc, initP, tlb.VarUInteger16(*new(big.Int).SetUint64(fee)))
+			}); p != nil || err != nil {
 				R.Violation("error@CreateExternalMessage", map[string]any{"err": fmt.Sprint(err, p)})
 			} else {
 				wit = map[string]any{"case": k, "with_init": initP != nil}
@@ -839,7 +1048,9 @@ func genVmVal(rng *mon.Rng) vmVal {
 		one := big.NewInt(1)
 		v.big = mon.Pick(rng, []*big.Int{big.NewInt(0), big.NewInt(-1), new(big.Int).Neg(new(big.Int).Lsh(one, 256)),
 			new(big.Int).Sub(new(big.Int).Lsh(one, 256), one), rng.BigBits(256), new(big.Int).Neg(rng.BigBits(255))})
-	case 4, 5, 6:
+	case 4, 6:
+		v.c = genRefCell(rng, 1) // vm_stk_cell#03 cell:^Cell, vm_stk_builder#05 cell:^Cell
+	case 5:
 		v.c = genCell(rng, 1)
 	}
 	return v
@@ -895,6 +1106,46 @@ func sectionVmStack() {
 		}
 		R.Eval(fmt.Sprintf("vmstack/%d/%d", depth, k))
 		expect("VmStack", marshal("VmStack", st, map[string]any{"case": k, "depth": depth}), want, map[string]any{"case": k, "depth": depth})
+		// the same stack built with Put: what is pushed last ends on top (the argument list is top-first)
+		var pushed tlb.VmStack
+		for i := len(st) - 1; i >= 0; i-- {
+			pushed.Put(st[i])
+		}
+		R.Eval(fmt.Sprintf("vmstack-put/%d/%d", depth, k))
+		expect("VmStack/Put", marshal("VmStack/Put", pushed, map[string]any{"case": k, "depth": depth}), want, map[string]any{"case": k, "depth": depth, "built": "Put, bottom value first"})
+		// a slice that covers a part of its cell (0 <= st <= end) exists only as a decoded value:
+		// vm_stk_slice#04 cell:^Cell st_bits:(## 10) end_bits:(## 10) st_ref:(#<= 4) end_ref:(#<= 4)
+		sc := genCell(rng, 1)
+		eb, er := rng.Intn(len(sc.Bits)+1), rng.Intn(len(sc.Refs)+1)
+		sb, sr := rng.Intn(eb+1), rng.Intn(er+1)
+		src := cell.New(cat(rb.UintBits(0x04, 8), rb.UintBits(uint64(sb), 10), rb.UintBits(uint64(eb), 10), rb.UintBits(uint64(sr), 3), rb.UintBits(uint64(er), 3)), false, sc)
+		tsrc := tongoCell(src)
+		var sv tlb.VmStackValue
+		ws := map[string]any{"case": k, "st_bits": sb, "end_bits": eb, "st_ref": sr, "end_ref": er, "cell_bits": len(sc.Bits), "cell_refs": len(sc.Refs)}
+		if p := mon.Guard(func() { err = tlb.Unmarshal(&tsrc, &sv) }); p != nil || err != nil {
+			ws["err"] = fmt.Sprint(err, p)
+			R.Violation("decode-failed@VmStkSlice/partial", ws)
+			continue
+		}
+		R.Eval(fmt.Sprintf("vmslice-partial/%d/%d/%d/%d/%d", sb, eb, sr, er, k))
+		R.Seen("vm_slice_shapes", fmt.Sprintf("st_bits>0=%v st_ref>0=%v", sb > 0, sr > 0))
+		expect("VmStkSlice/partial", marshal("VmStkSlice/partial", sv, ws), src, ws)
+		var part *boc.Cell
+		if p := mon.Guard(func() { part = sv.VmStkSlice.Cell() }); p != nil {
+			ws["panic"] = p.Value
+			R.Violation("panic@VmCellSlice.Cell", ws)
+			continue
+		}
+		expect("VmCellSlice.Cell", part, cell.New(sc.Bits[sb:eb], false, sc.Refs[sr:er]...), ws)
+	}
+	// tlb.Int257FromInt64 / tlb.VarUInteger16FromInt64: the value of the argument in the declared layout
+	for i, x := range []int64{0, 1, -1, 255, 256, -256, 1 << 32, -(1 << 32), 1<<63 - 1, -1 << 63, -1<<63 + 1, int64(R.Rng("fromint", 0).Uint64()), -int64(R.Rng("fromint", 1).Uint64() >> 1)} {
+		wit := map[string]any{"value": x}
+		R.Eval(fmt.Sprintf("fromint64/%d", i))
+		expect("Int257FromInt64", marshal("Int257FromInt64", tlb.Int257FromInt64(x), wit), cell.New(rb.BigBits(big.NewInt(x), 257), false), wit)
+		if x >= 0 {
+			expect("VarUInteger16FromInt64", marshal("VarUInteger16FromInt64", tlb.VarUInteger16FromInt64(x), wit), cell.New(refVarUint(big.NewInt(x), 16), false), wit)
+		}
 	}
 }
 
@@ -971,13 +1222,93 @@ func reencode(kind string, v any, srcHash tlb.Bits256, wit map[string]any, isUni
 	}
 }
 
+// peekAll reads, in place, from every cell an application can reach through
+// the exported fields of a decoded value (up to 32 bits and one reference
+// each), the way a consumer looks at the op-code of a body or walks into the
+// code of a state-init. Returns the number of cells read.
+func peekAll(v reflect.Value, depth int) int {
+	if depth > 40 || !v.IsValid() {
+		return 0
+	}
+	t := v.Type()
+	if (t == reflect.TypeOf(boc.Cell{}) || t == reflect.TypeOf(tlb.Any{})) && v.CanAddr() {
+		c := v.Addr().Convert(reflect.TypeOf(&boc.Cell{})).Interface().(*boc.Cell)
+		read := 0
+		if n := min(c.BitsAvailableForRead(), 32); n > 0 {
+			_, _ = c.ReadUint(n)
+			read = 1
+		}
+		if c.RefsAvailableForRead() > 0 {
+			_, _ = c.NextRef()
+			read = 1
+		}
+		return read
+	}
+	n := 0
+	switch v.Kind() {
+	case reflect.Struct:
+		if strings.HasPrefix(t.Name(), "Hashmap") {
+			if f := v.FieldByName("values"); f.IsValid() && f.CanAddr() {
+				vals := reflect.NewAt(f.Type(), f.Addr().UnsafePointer()).Elem()
+				return peekAll(vals, depth+1)
+			}
+			if f := v.FieldByName("m"); f.IsValid() {
+				return peekAll(f, depth+1)
+			}
+		}
+		for i := 0; i < v.NumField(); i++ {
+			if t.Field(i).IsExported() {
+				n += peekAll(v.Field(i), depth+1)
+			}
+		}
+	case reflect.Pointer:
+		if !v.IsNil() {
+			n += peekAll(v.Elem(), depth+1)
+		}
+	case reflect.Slice, reflect.Array:
+		if t.Elem().Kind() == reflect.Uint8 {
+			return 0
+		}
+		for i := 0; i < v.Len(); i++ {
+			n += peekAll(v.Index(i), depth+1)
+		}
+	}
+	return n
+}
+
+// reencodeAfterRead: reading the cells of a decoded record in place does not
+// change the record; encoded again it still reproduces the source hash.
+func reencodeAfterRead(kind string, v reflect.Value, srcHash tlb.Bits256, wit map[string]any, isUnique bool) {
+	if !isUnique {
+		return
+	}
+	n := peekAll(v, 0)
+	if n == 0 {
+		return
+	}
+	R.Count("real_"+kind+"_cells_read_in_place", int64(n))
+	c := boc.NewCell()
+	var err error
+	if p := mon.Guard(func() { err = tlb.Marshal(c, v.Interface()) }); p != nil || err != nil {
+		wit["err"] = fmt.Sprint(err, p)
+		R.Violation("reencode-failed@real-"+kind+"/after-read", wit)
+		return
+	}
+	h, herr := c.Hash()
+	R.Eval("real-after-read/" + kind + "/" + mon.Hex(srcHash[:8]))
+	if herr != nil || !bytes.Equal(h, srcHash[:]) {
+		wit["got"], wit["want"] = mon.Hex(h), mon.Hex(srcHash[:])
+		R.Violation("rehash-mismatch@real-"+kind+"/after-read", wit)
+	}
+}
+
 func sectionReal() {
-	blocks := []string{"block-1", "block-3", "block-4", "block-5"}
+	blocks := []string{"tlb/testdata/block-1/block.bin", "tlb/testdata/block-3/block.bin", "tlb/testdata/block-4/block.bin", "tlb/testdata/block-5/block.bin", "ton/testdata/raw-13516764.bin"}
 	if R.Thorough() {
-		blocks = []string{"block-1", "block-2", "block-3", "block-4", "block-5"}
+		blocks = append(blocks, "tlb/testdata/block-2/block.bin")
 	}
 	for _, name := range blocks {
-		raw, err := os.ReadFile(filepath.Join(mon.RepoRoot(), "tlb/testdata", name, "block.bin"))
+		raw, err := os.ReadFile(filepath.Join(mon.RepoRoot(), name))
 		if err != nil {
 			R.HarnessError("%v", err)
 			return
@@ -996,18 +1327,25 @@ func sectionReal() {
 		mon.Guard(func() { txs = blk.AllTransactions() })
 		for _, tx := range txs {
 			wit := map[string]any{"file": name, "lt": tx.Lt, "account": mon.Hex(tx.AccountAddr[:])}
-			reencode("transaction", *tx, tx.Hash(), wit, unique(reflect.ValueOf(tx).Elem(), 0))
+			txUnique := unique(reflect.ValueOf(tx).Elem(), 0)
+			reencode("transaction", *tx, tx.Hash(), wit, txUnique)
+			R.Seen("real_transaction_descr", string(tx.Description.SumType))
 			if tx.Msgs.InMsg.Exists {
 				m := tx.Msgs.InMsg.Value.Value
 				w2 := map[string]any{"file": name, "tx_lt": tx.Lt, "which": "in_msg"}
-				reencode("message", m, m.Hash(false), w2, unique(reflect.ValueOf(&m).Elem(), 0))
+				u := unique(reflect.ValueOf(&m).Elem(), 0)
+				reencode("message", m, m.Hash(false), w2, u)
+				reencodeAfterRead("message", reflect.ValueOf(&m).Elem(), m.Hash(false), w2, u)
 			}
 			for i, om := range tx.Msgs.OutMsgs.Values() {
 				m := om.Value
 				w2 := map[string]any{"file": name, "tx_lt": tx.Lt, "which": fmt.Sprintf("out_msg[%d]", i)}
-				reencode("message", m, m.Hash(false), w2, unique(reflect.ValueOf(&m).Elem(), 0))
+				u := unique(reflect.ValueOf(&m).Elem(), 0)
+				reencode("message", m, m.Hash(false), w2, u)
+				reencodeAfterRead("message", reflect.ValueOf(&m).Elem(), m.Hash(false), w2, u)
 				// the state-init of a message is re-encoded as part of it; also alone when stored in a reference
 			}
+			reencodeAfterRead("transaction", reflect.ValueOf(tx).Elem(), tx.Hash(), wit, txUnique)
 		}
 		R.Seen("real_blocks", fmt.Sprintf("%s: %d transactions", name, len(txs)))
 	}
@@ -1019,9 +1357,11 @@ func main() {
 		tier = os.Args[1]
 	}
 	R = mon.Start("C04", tier)
-	R.Rule = "(1) every UintN/IntN/VarUIntegerN/BitsN type of the registry at its boundary values, Go integer kinds, Unary, Magic tags (# and $), the first bits of every tagged struct and of every constructor of every reflectively encoded union, Maybe/Either/EitherRef/Ref and the ^/maybe/maybe^ field tags, compared bit by bit with an independent bit-list encoder; (2) MsgAddress (4 kinds, anycast), Grams, CurrencyCollection, CommonMsgInfo (3 kinds), StateInit, Message (init none/inline/ref x body inline/ref) and ton.CreateExternalMessage over random values against reference encoders transcribed from block.tlb (bits and refs, recursively); (3) every transaction and message of the real blocks re-encoded and compared by hash with its source cell wherever the encoding is unique (no non-empty dictionary, no unimplemented encoder); non-trivial = an encoding that was compared; distinct = distinct (structure, shape, value/case)"
+	R.Rule = "(1) every UintN/IntN/VarUIntegerN/BitsN type of the registry at its boundary values, Go integer kinds, Unary, Magic tags (# and $), the first bits of every tagged struct and of every constructor of every reflectively encoded union, Maybe/Either/EitherRef/Ref and the ^/maybe/maybe^ field tags, compared bit by bit with an independent bit-list encoder; (2) MsgAddress (4 kinds, anycast), Grams, CurrencyCollection, CommonMsgInfo (3 kinds), StateInit, Message (init none/inline/ref x body inline/ref) and ton.CreateExternalMessage over random values against reference encoders transcribed from block.tlb (bits and refs, recursively); SimpleLib, Account (none/uninit/active/frozen) and ShardAccount; where the schema has ^Cell (state-init code/data, SimpleLib root, vm_stk_cell/builder) a third of the cells are exotic (library, Merkle proof/update, pruned branch) and a quarter of the referenced message bodies are library cells: the reference must point to that very cell (type compared, and the representation hash against the reference model when no pruned branch is involved); VM stacks also built with Put (bottom value first), stack slices covering a part of their cell (decoded from a reference encoding, re-encoded, and VmCellSlice.Cell() against the sub-slice), Int257FromInt64 / VarUInteger16FromInt64 at int64 boundaries; (3) every transaction and message of the real blocks (tlb/testdata and ton/testdata/raw-13516764.bin) re-encoded and compared by hash with its source cell wherever the encoding is unique (no non-empty dictionary, no unimplemented encoder), and once more after every cell of the decoded record has been read in place (32 bits, one reference); non-trivial = an encoding that was compared; distinct = distinct (structure, shape, value/case)"
 	R.Assume("reference encoders in props/c04 are literal transcriptions of the block.tlb constructors quoted above them; dictionaries are kept empty in (2) because label forms are a free choice")
 	R.Assume("source-cell hashes of real records are the ones tongo reports (Transaction.Hash, Message.Hash(false)); that they equal the reference hash of a cell of the block is C16's business")
+	R.Assume("exotic cells are handed to tongo as in-memory cells (boc.NewCellExotic) with ordinary children; a pruned branch below a built cell is compared structurally only, because cells built in memory carry no level mask (hash and level of such trees are C02's business)")
+	R.Assume("reading a cell of a decoded value in place (ReadUint, NextRef) moves cursors but is not a change of the TL-B value")
 	R.Assume("wallet bodies (v3/v4/v5/highload) are checked bit-level by C14's reference decoder/verifier, not repeated here")
 	sectionPrimitives()
 	sectionCombinators()
